@@ -799,9 +799,89 @@ class _FakeDgram(socket.socket):
         return self._wires.pop(0), None
 
 
+_USE_ASYNC = [False]
+
+
+def _drive_real_async(zone, query, serial, is_udp, make_wires):
+    """the asynchronous twin: the real dns.asyncquery._inbound_xfr over scripted backend sockets"""
+    import asyncio
+
+    import dns.asyncbackend
+    import dns.asyncquery
+    import dns.exception
+
+    class Stream(dns.asyncbackend.StreamSocket):
+        type = socket.SOCK_STREAM
+
+        def __init__(self):
+            self.sent = bytearray()
+            self.data = None
+
+        async def sendall(self, what, timeout):
+            self.sent += what
+
+        async def recv(self, size, timeout):
+            if self.data is None:
+                wires = make_wires(bytes(self.sent[2:]))
+                self.data = b"".join(struct.pack("!H", len(w)) + w for w in wires)
+            out = self.data[:size]
+            self.data = self.data[size:]
+            return out  # b"" at the end: _read_exactly raises EOFError
+
+        async def close(self):
+            pass
+
+    class Dgram(dns.asyncbackend.DatagramSocket):
+        type = socket.SOCK_DGRAM
+
+        def __init__(self):
+            self.sent = b""
+            self.wires = None
+
+        async def sendto(self, what, destination, timeout):
+            self.sent = bytes(what)
+            return len(what)
+
+        async def recvfrom(self, size, timeout):
+            if self.wires is None:
+                self.wires = list(make_wires(self.sent))
+            if not self.wires:
+                class _Timeout(dns.exception.Timeout, _FromFake):
+                    pass
+
+                raise _Timeout()
+            return self.wires.pop(0), None
+
+        async def close(self):
+            pass
+
+    sock = Dgram() if is_udp else Stream()
+    n = [0]
+
+    async def go():
+        async for _ in dns.asyncquery._inbound_xfr(zone, sock, query, serial, None, None):
+            n[0] += 1
+
+    loop = asyncio.new_event_loop()
+    try:
+        loop.run_until_complete(go())
+    except Violation:
+        raise
+    except Exception as e:  # noqa - classified by the caller
+        if not (last_frame_in_dns(e) or isinstance(e, _FromFake)):
+            raise
+        return e, n[0]
+    finally:
+        loop.close()
+    return None, n[0]
+
+
 def _drive_real(zone, query, serial, is_udp, make_wires):
     """the real dns.query._inbound_xfr over a scripted socket -> (exception or None, messages)"""
     import dns.query
+
+    if _USE_ASYNC[0]:
+        return _drive_real_async(zone, query, serial, is_udp, make_wires)
 
     sock = _FakeDgram(make_wires) if is_udp else _FakeStream(make_wires)
     n = 0
@@ -1019,6 +1099,7 @@ def _judge(P, verdict, fault, flavour, zone, before, vbefore, exc, consumed, res
 
 
 def run(case):
+    _USE_ASYNC[0] = bool(case.get("async_twin"))
     P = _Prep(case)
     classes = P.classes
     if not P.valid:
@@ -1076,6 +1157,7 @@ def run(case):
 
 
 def run_signed(case):
+    _USE_ASYNC[0] = bool(case.get("async_twin"))
     import dns.message
     import dns.name
     import dns.renderer
@@ -1438,6 +1520,8 @@ def transfer_cases(draw, tier):
         "upper": draw(st.sampled_from([False, False, True])),
         "zones": [list(z) for z in zones],
         "faults": None,
+        # the synchronous or the asynchronous implementation of the transfer loop
+        "async_twin": draw(st.integers(0, 2)) == 0,
     }
 
 
